@@ -39,7 +39,9 @@ ASSUME = ["shape containment is an input of the model (observed Shape.contains_p
           "float - and % in AngleInterval.__contains__ are rounded (model exact): decisions closer than 1e-9 to an "
           "interval end are excluded unless the value equals the end exactly",
           "admissible domain: the state has every attribute the goal constrains; angle-interval length < 2pi; "
-          "MBState with velocity_y and PM-like CustomStates are compared with the model only (outside the quantifier)"]
+          "MBState with velocity_y and PM-like CustomStates are compared with the model only (outside the quantifier)",
+          "velocity components are never negative zeros: math.atan2 distinguishes -0.0 from 0.0 (atan2(-0.0, -0.0) = -pi), the "
+          "rational model and the property statement do not"]
 
 KIN = {"KSState": KSState, "KSTState": KSTState, "STState": STState, "STDState": STDState, "MBState": MBState,
        "InitialState": InitialState, "ExtendedPMState": ExtendedPMState, "CustomState": CustomState}
@@ -555,6 +557,8 @@ def gen_state(rng, goals, cls, t=None):
             vx, vy = sp * math.cos(th), sp * math.sin(th)
             if rng.random() < 0.3:
                 vx, vy = round(vx, 2), round(vy, 2)
+        if isinstance(vx, float):
+            vx, vy = vx + 0.0, vy + 0.0  # no negative zeros: atan2 of signed zeros is a libm convention (see ASSUME)
         s["vel"], s["vely"] = vx, vy
         if cls in ("MBState",) or (cls == "CustomState" and rng.random() < 0.4):
             s["orient"] = pick_angle(rng, go)
